@@ -9,6 +9,7 @@
 //   enc <cp>                    utf8proc_codepoint_valid, utf8proc_encode_char -> <0|1> <hex>
 //   iter <hex>                  utf8proc_iterate         -> <cp> <size> | err
 //   strtoll <hex>               strtoll(s, &e, 0), errno = 0 before -> <value> <consumed> <erange>
+//   strtod <hex>                iwstrtod(s, &e): which bytes the number scanner takes -> <consumed>
 // implementation-only (oracle inputs and round trips):
 //   nums <hexdoc>               iwstrtod at every offset that starts with [.-0-9] -> rem:bits:consumed:erange;... | -
 //   ftoa <bits>                 iwjson_ftoa             -> hex text
@@ -231,6 +232,12 @@ int main(void) {
       char *e; errno = 0;
       long long v = strtoll((char*) s, &e, 0);
       printf("%lld %d %d\n", v, (int) (e - (char*) s), errno == ERANGE ? 1 : 0);
+      free(s);
+    } else if (!strcmp(cmd, "strtod") && tn >= 2) {
+      uint8_t *s; unhex(tv[1], &s);
+      char *e = 0; errno = 0;
+      (void) iwstrtod((char*) s, &e);
+      printf("%d\n", (int) (e - (char*) s));
       free(s);
     } else if (!strcmp(cmd, "nums") && tn >= 2) {
       uint8_t *doc; size_t l = unhex(tv[1], &doc);
